@@ -4,20 +4,40 @@ from driver.common import Case
 ID = "C15"
 LEAN_MODULES = ["Gv.Props.C15"]
 REQUIRED_THEOREMS = ["Gv.Props.C15." + n for n in [
-    "mask_result", "mask_frame_names_lengths", "mask_cells", "mask_outside_window_unchanged", "mask_ok_iff", "repChar_spec"]]
-LEVEL_TEXT = ("Lean theorems about the model of Mask / MaskOccurences: names, order and lengths unchanged, every residue outside the "
-              "selection unchanged, selected residues replaced by the replacement character, overhanging windows truncated; tied to "
-              "/repo by correspondence over all windows (start, length) incl. empty / overhanging / negative, all replacement modes, "
-              "both protection flags, every reference row or none, thresholds 0..n, with an independently stated predicate.")
+    "mask_result", "mask_frame_names_lengths", "mask_cells", "mask_outside_window_unchanged", "mask_ok_iff", "repChar_spec",
+    # replacement character incl. the MAJ tie rule
+    "majority_replacement", "mask_replacement_char",
+    # MaskOccurences / MaskUnique
+    "maskOcc_result", "maskOcc_ok_iff", "maskOcc_frame_names_lengths", "maskOcc_cells", "maskOcc_selected_exactly",
+    "maskOcc_changed_iff", "maskOcc_not_selected", "maskOcc_threshold_extremes", "maskOcc_replacement_char",
+    "maskOcc_empty_column", "maskUnique_selected"]]
+LEVEL_TEXT = ("Lean theorems, all inputs, about the Go-mirroring models. Mask: names, order and lengths unchanged, every residue outside "
+              "the selection unchanged, selected residues replaced, overhanging windows truncated, replacement character per mode "
+              "(mask_replacement_char). MaskOccurences / MaskUnique (loop model: per-column occurrence table keyed by row index, MAJ value "
+              "carried between columns): success condition (maskOcc_ok_iff); names, order and length unchanged "
+              "(maskOcc_frame_names_lengths); residue by residue, for every row and every column < L, the result is the replacement "
+              "if the residue is selected and the original otherwise (maskOcc_cells); selected = the row takes part in the count (no "
+              "reference, or not the reference row and residue different from the reference residue or facing a reference gap), not a "
+              "gap, count among the counted residues of the column <= threshold (maskOcc_selected_exactly); the reference row, "
+              "residues equal to a non-gap reference residue, gaps and too frequent residues are never selected "
+              "(maskOcc_not_selected); thresholds <= 0 select nothing, thresholds >= n select every counted non-gap residue "
+              "(maskOcc_threshold_extremes); MaskUnique = threshold 1 = exactly one occurrence (maskUnique_selected); replacement per "
+              "mode, for MAJ the most frequent counted residue of the column, lowest byte on ties (maskOcc_replacement_char, "
+              "majority_replacement). Tied to /repo by correspondence over all windows (start, length) incl. empty / overhanging / "
+              "negative, all replacement modes, both protection flags, every reference row or none, thresholds 0..n, MaskUnique through "
+              "its own entry point, with two independently stated predicates (a naive recount and Spec.maskOccCell, the definition the "
+              "theorems are about).")
 LEVEL_NOTE = "Trusted: Lean kernel; harness/oracle/driver; hand-written model validated on generated cases only."
-TECHNIQUE = "Lean 4 proof (frame / selection theorems by list induction) + differential correspondence over all windows"
+TECHNIQUE = ("Lean 4 proof (frame / selection theorems by list induction; loop invariant for the column loop with carried replacement; "
+             "first-strict-maximum invariant for the 130-entry scan) + differential correspondence over all windows")
 RULE = ("alignments of 1..5 rows x 1..7 columns (nucleotide / protein / unknown alphabet, gaps, lower case, '.'), every window with "
         "start in [-1, L+1] and length in [-1, L+2], replacement in {'', AMBIG, GAP, MAJ, one char, bad string}, nogap x noref, "
-        "reference = each row / unknown / none, occurrence thresholds 0..n; non-trivial = window overlapping the end or protected cells")
-PARTIAL = ["MaskOccurences / MaskUnique: modelled and checked by the independent predicate and by correspondence; the Lean theorems so "
-           "far cover Mask (frame, selection, truncation, replacement character)",
-           "the column-majority replacement (MAJ) is the lowest byte among the most frequent raw characters: stated in the model, "
-           "compared with a naive recount by the oracle"]
+        "reference = each row / unknown / none, occurrence thresholds 0..n, MaskUnique; non-trivial = window overlapping the end or "
+        "protected cells")
+PARTIAL = ["MAJ: the theorems describe the majority among bytes < 130 (the size of the Go occurrence table); a residue >= 130 makes the "
+           "Go code panic (index out of range) and lies outside the ASCII quantifier of the property",
+           "MaskOccurences MAJ in a column without any counted residue carries the previous column's value; nothing is selected "
+           "there (maskOcc_empty_column), so the value is never written"]
 
 NT = "ACGTacg-N."
 AA = "ARNDX-kl"
@@ -44,6 +64,8 @@ def gen(rng, tier):
         nogap, noref = rng.randint(0, 1), rng.randint(0, 1)
         yield Case("mask", [alpha, rs, ref, st, ln, rep, nogap, noref], st + ln > L or nogap or noref, "mask")
         yield Case("maskocc", [alpha, rs, ref, rng.choice([0, 1, 1, 2, n, -1]), rep], True, "maskocc")
+        if rng.random() < 0.5:
+            yield Case("maskuniq", [alpha, rs, ref, rep], True, "maskuniq")
 
 
 def shrink(c):
